@@ -71,6 +71,11 @@ def gen(tier, seed):
     yield 'ct_slice 0102 010203 #slice-lendiff'
     yield 'ct_slice 010203 0102 #slice-lendiff'
     yield 'ct_slice - 00 #slice-lendiff'
+    for n in (0, 1, 2, 5):
+        base = rng.bytes(8 * n)
+        yield 'ct_u64slice %s %s #u64slice-lendiff' % (base.hex() or '-', (base + rng.bytes(8)).hex())
+        yield 'ct_u64slice %s %s #u64slice-lendiff' % ((base + bytes(8)).hex(), base.hex() or '-')
+        yield 'ct_slice %s %s #slice-lendiff' % (base.hex() or '-', (base + b'\x00').hex())
     for n in range(0, 41 if thorough else 13):
         base = rng.bytes(8 * n)
         for op in ('ct_u64arr', 'ct_u64slice'):
@@ -187,6 +192,8 @@ def expected(f):
         return [T(a == b), T(a != b)]
     if op in ('ct_u64arr', 'ct_u64slice'):
         a, b = u64s(expand(f[1])), u64s(expand(f[2]))
+        if len(a) != len(b):
+            return ['PANIC']          # slices of different length: documented refusal (never "equal because one is a prefix of the other")
         z = not any(a)
         return [T(z), T(not z), T(a == b), T(a != b)]
     if op == 'choice':
